@@ -167,6 +167,13 @@ S["loop_unsettled"] = dict(until=2, max_loop=3, groups=G1,
                            sims=[E("A", group="g", init_event=0, emit_default=0),
                                  E("B", group="g", emit_default=0)],
                            conns=[C("A", "B", "eo", "ti"), C("B", "A", "eo", "ti", weak=True)])
+# sub-step index inherited over a time-shifted connection inside the group (F22)
+S["shift_in_group_loop"] = dict(
+    until=5, max_loop=4, groups=G1,
+    sims=[E("A", group="g", init_event=0, emit_default=0), E("B", group="g", emit=[0, None] * 6),
+          E("Cc", group="g", emit=[None, 0] * 6)],
+    conns=[C("A", "B", "eo", "ti"), C("B", "A", "eo", "ti", weak=True), C("A", "Cc", "eo", "ti"),
+           C("Cc", "A", "eo", "ti2", shift=1)])
 S["loop3_members"] = dict(until=2, max_loop=3, groups=G1,
                           sims=[E("A", group="g", init_event=0, emit=[0, 0], next=[None, None, 1]),
                                 E("B", group="g", emit_default=0), E("Cc", group="g", emit_default=0)],
